@@ -23,6 +23,12 @@ def errName : Err → String
 
 def chars (j : Json) : List Char := (asStr j).toList
 
+/-- optional constant inside a lambda: JSON array `[]` = not given, `[v]` = given -/
+def optConst (j : Json) : Option Value :=
+  match asArr j with
+  | [v] => some (valOfJson v)
+  | _ => none
+
 partial def lamOfJson (j : Json) : Lam :=
   match asArr j with
   | [t] => if asStr t == "arg" then .arg else .arg
@@ -30,6 +36,12 @@ partial def lamOfJson (j : Json) : Lam :=
     match asStr t with
     | "const" => .const (valOfJson a)
     | "not" => .not (lamOfJson a)
+    | "len" => .len (lamOfJson a)
+    | "single" => .single (lamOfJson a)
+    | "sum" => .sum (lamOfJson a)
+    | "range" => .rangeOf (lamOfJson a)
+    | "str" => .strOf (lamOfJson a)
+    | "half" => .half (lamOfJson a)
     | _ => .arg
   | [t, a, b] =>
     match asStr t with
@@ -41,6 +53,11 @@ partial def lamOfJson (j : Json) : Lam :=
     | "member" => .member (lamOfJson a) (chars b)
     | "index" => .index (lamOfJson a) (asInt b)
     | "pair" => .pair (lamOfJson a) (lamOfJson b)
+    | "first" => .first (lamOfJson a) (optConst b)
+    | "last" => .last (lamOfJson a) (optConst b)
+    | "where" => .whereIn (lamOfJson a) (lamOfJson b)
+    | "select" => .selectIn (lamOfJson a) (lamOfJson b)
+    | "take" => .takeIn (lamOfJson a) (asInt b)
     | _ => .arg
   | _ => .arg
 
@@ -55,6 +72,7 @@ def lam2OfJson (j : Json) : Lam2 :=
     | "const" => .const (valOfJson a)
     | "on1" => .on1 (lamOfJson a)
     | "on2" => .on2 (lamOfJson a)
+    | "plusOn" => .plusOn (lamOfJson a)
     | _ => .fst
   | _ => .fst
 
